@@ -246,7 +246,11 @@ cls("LookupBlock", dynamic=True, notes="feaLib ast.LookupBlock (opaque here: onl
 cls("FeaStmt", fields={"kind": STR, "script": STR, "language": STR, "include_default": BOOL, "lookup": Ref("LookupBlock"), "text": STR},
     views={
         "kind": lambda o: {"ScriptStatement": "script", "LanguageStatement": "language", "LookupReferenceStatement": "lookupref", "Comment": "comment"}.get(type(o).__name__, type(o).__name__),
-        "lookup": lambda o: o.lookup,
+        "lookup": lambda o: getattr(o, "lookup", None),
+        "script": lambda o: getattr(o, "script", None),
+        "language": lambda o: getattr(o, "language", None),
+        "include_default": lambda o: getattr(o, "include_default", None),
+        "text": lambda o: getattr(o, "text", None),
     },
     notes="feaLib ast.ScriptStatement / LanguageStatement / LookupReferenceStatement / Comment: one class, `kind` records the constructor (assumed)")
 def _stmt_proxies(o):
@@ -313,6 +317,7 @@ def k5_nondflt(L, i):
 
 
 _ST = "feature.statements"
+_STMT_FIELDS = ("kind", "script", "language", "include_default", "lookup")
 _N0 = "len(old(feature.statements))"
 _SCRIPT = _ST + "[{n}].kind == 'script' and " + _ST + "[{n}].script == script"
 _DFLT = _ST + "[{n}].kind == 'language' and " + _ST + "[{n}].language == 'dflt' and " + _ST + "[{n}].include_default"
@@ -331,8 +336,9 @@ def _alr_contract(name, languages_ty, props):
         requires=["len(lookups) >= 1", "script != ''",
                   # heap well-formedness: the statements already in the block exist before the call
                   "all(not fresh(s) for s in feature.statements)"],
-        # (plus the fields of the statement objects it creates, which did not exist before)
-        modifies=["FeatureBlock.statements"],
+        # the block's statement list, and the fields of the statement objects it creates (written by their constructors; the
+        # statements that existed before keep theirs: clause `untouched`)
+        modifies=["FeatureBlock.statements"] + ["FeaStmt." + f for f in _STMT_FIELDS],
         ensures={
             # statements are only appended
             "appended": f"feature.stmt_ids[:{_N0}] == old(feature.stmt_ids)",
@@ -344,6 +350,8 @@ def _alr_contract(name, languages_ty, props):
             "lookups": f"all({_ST}[{_N0} + 2 + j].kind == 'lookupref' and {_ST}[{_N0} + 2 + j].lookup == lookups[j] for j in range(len(lookups)))",
             # language X;  for every other language, inheriting the default language system's lookups
             "languages": f"all({_ST}[{base} + j].kind == 'language' and {_ST}[{base} + j].include_default and {_ST}[{base} + j].language == {nd}[j] for j in range(len({nd})))",
+            # the statements that were in the block before are the same objects with the same content
+            "untouched": "all(" + " and ".join(f"{_ST}[n].{f} == old({_ST}[n].{f})" for f in _STMT_FIELDS) + f" for n in range({_N0}))",
             # the new statements are new objects (no statement of another block is reused)
             "fresh": f"all(n < {_N0} or fresh({_ST}[n]) for n in range(len({_ST})))",
         },
@@ -351,6 +359,7 @@ def _alr_contract(name, languages_ty, props):
         loops={
             "for lookup in lookups#3": Loop(index="j", invariants={
                 "shape": f"{_ST} == st0 + new and len(new) == 2 + j",
+                "untouched": "all(" + " and ".join(f"st0[n].{f} == old({_ST}[n].{f})" for f in _STMT_FIELDS) + " for n in range(len(st0)))",
                 # the statements made so far are new objects that exist now (the one created next is yet another object)
                 "new": "all(fresh(new[b]) and allocated(new[b]) for b in range(len(new)))",
                 "head": "new[0].kind == 'script' and new[0].script == script and new[1].kind == 'language' and new[1].language == 'dflt' and new[1].include_default",
@@ -358,7 +367,7 @@ def _alr_contract(name, languages_ty, props):
             }),
         },
         # position-wise view of `statements == st0 + new` (proved once, then used by the postconditions)
-        hints={"for language in languages or ():": [f"all({_ST}[len(st0) + b] == new[b] for b in range(len(new)))", f"all(n < len(st0) or {_ST}[n] == new[n - len(st0)] for n in range(len({_ST})))"]},
+        hints={"for language in languages or ():": [f"all(n < len(st0) or {_ST}[n] == new[n - len(st0)] for n in range(len({_ST})))"]},
         globals={"fresh": _native_fresh},
         # ghost: the statements at entry, and the list of statements created so far
         ghost_vars={"st0": (List(Ref("FeaStmt")), "feature.statements"), "new": (List(Ref("FeaStmt")), "[]")},
